@@ -69,36 +69,38 @@ func (t *thread) enabled() bool {
 
 // Run is one execution: the handle given to the setup function.
 type Run struct {
-	threads  []*thread
-	cur      *thread // running thread; nil = controller context
-	prefix   []int
-	expect   []uint32 // expected signatures of the prefix points (nil = unchecked)
-	choices  []int
-	sigs     []uint32
-	nopts    []int32
-	pre      []int32 // preemptions before point i
-	runEn    []bool  // running thread still enabled at point i
-	who      []int32 // thread chosen at point i
-	preempts int
-	horizon  int
-	aborting bool
-	status   Status
-	msg      string
-	stack    string
-	log      []string
-	ctrl     chan struct{}
-	exitC    chan struct{}
-	wg       sync.WaitGroup
-	optsBuf  []*thread
-	free     bool // free-running mode (no scheduler)
-	freeWG   sync.WaitGroup
-	freeMu   sync.Mutex
-	seq      int
-	fatal    string // scheduler-level hard error (bad choice, divergence)
-	optDesc  []string
-	picking  bool // a scheduling decision is being made (wait predicates are running)
-	costAll  bool // every non-default choice counts (deviation bounding), not only preemptions
-	sel      int // case chosen by the last SelectWait of the running thread
+	threads     []*thread
+	cur         *thread // running thread; nil = controller context
+	prefix      []int
+	expect      []uint32 // expected signatures of the prefix points (nil = unchecked)
+	choices     []int
+	sigs        []uint32
+	nopts       []int32
+	pre         []int32 // preemptions before point i
+	runEn       []bool  // running thread still enabled at point i
+	who         []int32 // thread chosen at point i
+	preempts    int
+	horizon     int
+	aborting    bool
+	status      Status
+	msg         string
+	stack       string
+	log         []string
+	ctrl        chan struct{}
+	exitC       chan struct{}
+	wg          sync.WaitGroup
+	optsBuf     []*thread
+	free        bool // free-running mode (no scheduler)
+	freeWG      sync.WaitGroup
+	freeMu      sync.Mutex
+	seq         int
+	fatal       string // scheduler-level hard error (bad choice, divergence)
+	optDesc     []string
+	evalThread  *thread // thread whose wait predicate is being evaluated
+	inQuiescent bool
+	picking     bool // a scheduling decision is being made (wait predicates are running)
+	costAll     bool // every non-default choice counts (deviation bounding), not only preemptions
+	sel         int  // case chosen by the last SelectWait of the running thread
 	// free-running mode: threads neither finished nor waiting
 	freeActive atomic.Int64
 }
@@ -326,16 +328,19 @@ func (r *Run) pick() *thread {
 	running := -1
 	if r.cur != nil {
 		running = r.cur.id
+		r.evalThread = r.cur
 		if r.cur.enabled() {
 			opts = append(opts, r.cur)
 			runEn = true
 		}
 	}
 	for _, t := range r.threads {
+		r.evalThread = t
 		if t != r.cur && t.enabled() {
 			opts = append(opts, t)
 		}
 	}
+	r.evalThread = nil
 	r.optsBuf = opts
 	if len(opts) == 0 {
 		bad := false
